@@ -256,6 +256,10 @@ def enum_setup_faults(tier):
     for c in _c03("enum_strangers")(tier):
         if c["fault"][0] in ("none", "m4-flip"):
             yield c
+    # the replies that carry B and M2 in two TCP segments / chunked
+    for c in _c03("enum_second_attempts")(tier):
+        if c.get("framing"):
+            yield c
 
 
 SPEC = Property(
